@@ -75,7 +75,31 @@ def replay_place(shape=None):
         out = SubtomogramLoader(tomo, Molecules([pos]), order=1, output_shape=shp).load(0)
         err_load = float(np.abs(out - tmpl).max())
         bad = err_paste > 1e-4 or err_load > 1e-4
-        return bad, {"template_shape": list(shp), "pos": pos.tolist(), "max_abs_err_paste": err_paste, "max_abs_err_load_back": err_load, "mass_outside_block": total}
+        # rotated molecules at positions off the grid: the centre of mass of an isotropic blob sits at the molecule position, and loading there returns the template
+        from scipy.spatial.transform import Rotation
+
+        n = 9
+        zz = np.indices((n, n, n)).astype(float) - (n - 1) / 2
+        blob = np.exp(-(zz ** 2).sum(axis=0) / 3.0).astype(np.float32)
+        asym = (blob * (1 + 0.3 * zz[0] + 0.2 * zz[2])).astype(np.float32)
+        worst_com, worst_load = 0.0, 0.0
+        for rv in ([0, 0, 0], [0.9, 0, 0], [0.3, -0.8, 0.5]):
+            for p in ([12.0, 13.0, 11.0], [12.3, 13.6, 11.45]):
+                mol = Molecules([p], Rotation.from_rotvec([rv]))
+                for t in (blob, asym):
+                    sm = TomogramSimulator(order=3, scale=1.0)
+                    sm.add_molecules(mol, t)
+                    vol = sm.simulate((26, 27, 25))
+                    if t is blob:
+                        w = np.clip(vol, 0, None)
+                        com = np.array([(np.indices(vol.shape)[a] * w).sum() / w.sum() for a in range(3)])
+                        worst_com = max(worst_com, float(np.abs(com - np.array(p)).max()))
+                    else:
+                        back = SubtomogramLoader(vol, mol, order=3, output_shape=(n, n, n)).load(0)
+                        worst_load = max(worst_load, float(np.abs(back - t).max()))
+        bad = bad or worst_com > 0.05 or worst_load > 0.15
+        return bad, {"template_shape": list(shp), "pos": pos.tolist(), "max_abs_err_paste": err_paste, "max_abs_err_load_back": err_load, "mass_outside_block": total,
+                     "rotated_off_grid: centre_of_mass_error_px": worst_com, "rotated_off_grid: load_back_error": worst_load}
 
     return run
 
@@ -99,7 +123,12 @@ def replay_2d():
         vol = sim.simulate((depth, 40, 40))
         proj = sim.simulate_2d((40, 40))
         err = float(np.abs(proj - vol.sum(axis=0)).max())
-        return err > 1e-4, {"max_abs_err_projection_vs_zsum": err, "positions_nm": pos, "scale": scale}
+        # a molecule whose box straddles the LOW z face (and one the low y face): the planes outside the volume are clipped in 3-D, so they are not projected either
+        sim2 = TomogramSimulator(order=1, scale=scale)
+        sim2.add_molecules(Molecules([[0.0, 10 * scale, 12 * scale], [-0.5 * scale, 25 * scale, 30 * scale], [6 * scale, 0.5 * scale, 20 * scale]]), tmpl)
+        vol2 = sim2.simulate((16, 40, 40))
+        err2 = float(np.abs(sim2.simulate_2d((40, 40)) - vol2.sum(axis=0)).max())
+        return max(err, err2) > 1e-4, {"max_abs_err_projection_vs_zsum": err, "straddling_the_low_z_face": err2, "positions_nm": pos, "scale": scale}
 
     return run
 
